@@ -325,6 +325,26 @@ def g_sequences(ctx, rng, i):
             bad = [j for j in range(len(objs_)) if before[j] != after[j]]
             ctx.judge("digest.soft", not bad, [name, np.dtype(dt).name, dim], what=f"{name} on {np.dtype(dt).name} operands changed the state (content, dtype or buffer) of operand(s) {bad}: "
                       f"{[(before[j][2], after[j][2]) for j in bad]}", op=name, feat={"op": name, "dtype": np.dtype(dt).name}, nontrivial=True)
+    # constructors that take a tensor returned by another call leave that tensor as it was (content, index types, flags)
+    from geometer.base import Tensor
+
+    mt = gen.invertible_int_matrix(rng, 3 + i % 2, 3).astype(float)
+    t0 = g.Transformation(mt)
+    tc0 = g.TransformationCollection(np.stack([mt, mt.T + np.eye(len(mt))]))
+    sources = [("Transformation(t.transpose())", t0.transpose(), g.Transformation), ("Transformation(t.T)", t0.T, g.Transformation),
+               ("TransformationCollection(tc.transpose())", tc0.transpose(), g.TransformationCollection), ("Transformation(t)", t0, g.Transformation),
+               ("Tensor(t.T)", t0.T, Tensor), ("Point(point)", g.Point(*([1.0, 2.0, 3.0][: len(mt) - 1])), g.Point)]
+    for name, src_, ctor in sources:
+        before = state_digest(src_)
+        answers = []
+        for rep in range(2):
+            try:
+                answers.append(repr(np.asarray(ctor(src_).array).tolist()))
+            except Exception as e:  # noqa: BLE001
+                answers.append("raised " + type(e).__name__)
+        after = state_digest(src_)
+        ctx.judge("digest.soft", before == after, [name], what=f"{name} changed the state (array / index types) of its argument", op=name, feat={"op": name}, nontrivial=True)
+        ctx.judge("history.requery", answers[0] == answers[1], [name], what=f"{name} asked twice gives different objects: {answers[0][:60]} / {answers[1][:60]}", op=name, feat={"op": name}, nontrivial=True)
     # answers that must not depend on what was computed (and freed) before: special lines, asked repeatedly between unrelated allocations
     for spec_line in (g.Line(0, 0, int(rng.integers(1, 5))), g.Line(0.0, 0.0, 2.5), g.LineCollection(np.array([[0, 0, 3], [1, 2, 3], [0, 0, -1]]))):
         firsts = {}
